@@ -167,6 +167,12 @@ theorem c16_table_check_total (p : TPred) (h : THost) (args : List Nat)
     simp only [TPred.arity] at ha
     unfold TPred.check
     simp [ha]
+  | notIn n =>
+    simp only [TPred.arity] at ha
+    match args, ha with
+    | v :: vs, ha =>
+      have : vs.length = n := by simpa using ha
+      simp [TPred.check, this]
 
 /-- Non-vacuity: a binary table constraint over a partial binding; first unbound key is 2. -/
 example :
